@@ -16,7 +16,8 @@ PROP = "C19"
 N = {"quick": 250, "thorough": 20000}
 WORKERS = {"quick": 4, "thorough": 16}
 RULE = ("seeded recipes (Cartesian / tensor / structured+Delaunay triangles / tetrahedra / "
-        "mixed triangle-quadrilateral polygons / prism+hexahedron extrusions), optionally "
+        "mixed triangle-quadrilateral polygons / prism+hexahedron extrusions / thin L-shaped "
+        "non-convex cells / geometrically graded 1-D grids), optionally "
         "node-perturbed (boundary nodes stay in their plane), affinely mapped, rigidly "
         "embedded in 3-D, optionally with reversed face-node order on some faces "
         "(orientation fallback); non-trivial = at least 2 cells; distinct = recipe hash")
@@ -29,7 +30,7 @@ REACH_LINES = [
     ("grids/grid.py", "return pp.map_geometry.compute_normal(self.nodes)"),
     ("grids/grid.py", "subsimplex_volumes = np.sqrt(np.square(subsimplex_normals).sum(axis=0))"),
 ]
-REQUIRED = {"grids_checked": 20, "cells_checked": 100, "faces_normal_length": 100,
+REQUIRED = {"grids_checked": 20, "nonconvex_grids": 3, "cells_checked": 100, "faces_normal_length": 100,
             "cells_centroid_identity": 50}
 ASSUMPTIONS = [
     "domain measure of a recipe is known by construction (box, affine determinant)",
@@ -41,15 +42,20 @@ TOL = 1e-10
 
 def floor(tier):
     out = [{"grid": r, "flip": 0} for r in gg.floor_recipes()]
+    # non-convex cells (oriented path only) and strongly graded 1-D grids
+    out += [{"grid": r, "flip": 0} for r in gg.floor_extra()]
     # orientation fallback: reversed node order on some faces of 2-D grids
     out += [{"grid": r, "flip": 3 + k} for k, r in enumerate(gg.floor_recipes(dims=(2,)))]
     return out
 
 
 def generate(rng, tier, i):
-    r = gg.random_recipe(rng, rigid="embedded")
+    if rng.random() < 0.15:
+        r = gg.random_recipe(rng, dims=(1, 2), kinds=("graded", "nonconvex"), rigid="embedded")
+    else:
+        r = gg.random_recipe(rng, rigid="embedded")
     flip = 0
-    if r["dim"] == 2 and rng.random() < 0.35:
+    if r["dim"] == 2 and gg.convex(r) and rng.random() < 0.35:
         flip = int(rng.integers(1, 2**31))
     return {"grid": r, "flip": flip}
 
@@ -110,7 +116,12 @@ def check(case, mon):
 
     # (3) outward orientation: sign * n . (x_f - x_c) > 0
     d = np.sum(n_out * (g.face_centers[:, fi] - g.cell_centers[:, ci]), axis=0)
-    if not np.all(d > 0):
+    if not gg.convex(r):
+        # the centre-to-face test is only meaningful for convex cells; orientation of
+        # non-convex cells is pinned by the divergence identities (4)-(6) below
+        mon.excluded("non-convex cells: centre-to-face outwardness test not applicable")
+        mon.count("nonconvex_grids")
+    elif not np.all(d > 0):
         k = int(np.argmin(d))
         mon.violation("normal-not-outward", {"face": int(fi[k]), "cell": int(ci[k]),
                                              "value": float(d[k])})
